@@ -142,3 +142,80 @@ Theorem C09_contents_listing :
   Refine.good c hash t -> rep c t m -> is_listing m (contents c t).
 Proof. exact contents_listing. Qed.
 Print Assumptions C09_contents_listing.
+
+(* ---- the oracle's locked-table clauses against the specification (SpecSoundLocked.v) ---- *)
+From LC Require Import SpecSoundLocked.
+Theorem C09_accepted_traversal_is_a_listing :
+  forall (fapply : fnk -> Z -> bool -> Z * bool) (spb_ : N) (s : Spec.sst) (a : nat) 
+  (t : Spec.stab) (m : amap) (r : out) (pre post : Spec.obs) (s' : Spec.sst),
+  Spec.get_st s a = Some t ->
+  Spec.st_moved t = false ->
+  SpecSound.srep (Spec.st_m t) m ->
+  Spec.is_exn r EUnmodelled = false ->
+  Spec.judge_op fapply spb_ s a LTraverse r pre post = (s', []) ->
+  is_listing m (Refine.kvs r) /\
+  Sorted.StronglySorted lex_lt (poss r) /\
+  Forall (fun p : N * N => fst p < fst (Spec.endp post) /\ snd p < spb_) (poss r).
+Proof. exact accepted_traverse_listing. Qed.
+Print Assumptions C09_accepted_traversal_is_a_listing.
+
+Theorem C09_accepted_reverse_traversal_is_the_reverse :
+  forall (fapply : fnk -> Z -> bool -> Z * bool) (spb_ : N) (s : Spec.sst) (a : nat) 
+  (t : Spec.stab) (m : amap) (r1 r2 : out) (pre1 post1 pre2 post2 : Spec.obs)
+  (s1 s2 : Spec.sst),
+  Spec.get_st s a = Some t ->
+  Spec.st_moved t = false ->
+  SpecSound.srep (Spec.st_m t) m ->
+  Spec.is_exn r1 EUnmodelled = false ->
+  Spec.is_exn r2 EUnmodelled = false ->
+  Spec.judge_op fapply spb_ s a LTraverse r1 pre1 post1 = (s1, []) ->
+  Spec.judge_op fapply spb_ s1 a LRTraverse r2 pre2 post2 = (s2, []) ->
+  exists od : Spec.order,
+  r1 = out_of_order od /\
+  r2 = out_of_order (rev od) /\
+  Refine.kvs r2 = rev (Refine.kvs r1) /\
+  poss r2 = rev (poss r1) /\
+  is_listing m (Refine.kvs r1) /\
+  is_listing m (Refine.kvs r2) /\ Sorted.StronglySorted lex_lt (poss r1) /\ s2 = s1.
+Proof. exact accepted_rtraverse_is_reverse. Qed.
+Print Assumptions C09_accepted_reverse_traversal_is_the_reverse.
+
+Theorem C09_acceptor_sound_for_locked_operations :
+  forall (c : config) (fapply : fnk -> Z -> bool -> Z * bool) (spb_ : N) (tb tb' : table) 
+  (s : Spec.sst) (a : nat) (t : Spec.stab) (m : amap) (o : op) (r : out) (pre post : Spec.obs)
+  (s' : Spec.sst),
+  locked_op o = true ->
+  (forall k : N, o <> LRange k) ->
+  spb c = spb_ ->
+  lobs c tb tb' o pre post ->
+  ord_inv spb_ s t post ->
+  Spec.get_st s a = Some t ->
+  Spec.st_moved t = false ->
+  SpecSound.srep (Spec.st_m t) m ->
+  Spec.is_exn r EUnmodelled = false ->
+  Spec.judge_op fapply spb_ s a o r pre post = (s', []) ->
+  exists (m' : amap) (r0 : out),
+  SpecSound.norm_out r0 = SpecSound.norm_out r /\
+  lpost_ok s' a o t m' /\ lop_spec_abs c tb m o r0 tb' m'.
+Proof. exact judge_sound_locked_abs. Qed.
+Print Assumptions C09_acceptor_sound_for_locked_operations.
+
+Theorem C09_acceptor_sound_for_equal_range :
+  forall (c : config) (fapply : fnk -> Z -> bool -> Z * bool) (spb_ : N) (tb tb' : table) 
+  (s : Spec.sst) (a : nat) (t : Spec.stab) (m : amap) (o : op) (r : out) (pre post : Spec.obs)
+  (s' : Spec.sst),
+  locked_op o = true ->
+  spb c = spb_ ->
+  lobs c tb tb' o pre post ->
+  ord_inv spb_ s t post ->
+  Spec.get_st s a = Some t ->
+  Spec.st_moved t = false ->
+  SpecSound.srep (Spec.st_m t) m ->
+  Spec.is_exn r EUnmodelled = false ->
+  lstrict s m o ->
+  Spec.judge_op fapply spb_ s a o r pre post = (s', []) ->
+  exists (m' : amap) (r0 : out),
+  SpecSound.norm_out r0 = SpecSound.norm_out r /\
+  lpost_ok s' a o t m' /\ lop_spec_abs c tb m o r0 tb' m'.
+Proof. exact judge_sound_locked_strict. Qed.
+Print Assumptions C09_acceptor_sound_for_equal_range.
